@@ -138,7 +138,11 @@ class LiteralEvaluator:
 			True = 正常
 		"""
 		quotes = ['"', "'"]
-		return len(string) >= 2 and string[0] in quotes and string[-1] in quotes
+		if len(string) >= 6 and string[:3] == string[0] * 3:
+			# 三重引用符の文字列は対象外
+			return False
+
+		return len(string) >= 2 and string[0] in quotes and string[-1] == string[0]
 	
 	def _cat(self, left: str, right: str) -> str:
 		"""文字列結合
@@ -150,6 +154,8 @@ class LiteralEvaluator:
 			結合結果
 		"""
 		quote = left[0]
+		# 右辺の引用符が異なる場合、左辺の引用符を含む文字列は結合後にリテラルとして成立しないため対象外
+		assert right[0] == quote or quote not in right[1:-1]
 		return f'{quote}{left[1:-1]}{right[1:-1]}{quote}'
 
 	def on_argument(self, node: defs.Argument, label: Evaluator.Value, value: Evaluator.Value) -> Evaluator.Value:
